@@ -63,8 +63,21 @@ KF_C07_late_arrival_after_fire(G) ==
      /\ IsJoin(G.def, j) /\ Need(G.def, j) < Cardinality(Inbound(G.def, j))
      /\ \E a, b \in 1..Len(G.members) : Cnt(Fin(G, a).execd, j) # Cnt(Fin(G, b).execd, j)
 
+(* S1 at group level: an output variable with a single causal chain of publishers (a newer     *)
+(* publish downstream of an older one) whose value nevertheless differs between report orders   *)
+KF_C06_inherited_delta_after_newer(G) ==
+  LET d == G.def IN
+  \E k \in 1..Len(d.output) : \E v \in DepVar(d.output[k][2]) :
+     /\ ~ConcurrentlyWritten(d, v)
+     /\ \E s1, s2 \in PubSites(d, v) : s1 # s2 /\ Precedes(d, s1, s2)
+     /\ \E a, b \in 1..Len(G.members) :
+          LET o == d.output[k][1] IN
+          /\ Fin(G, a).wf = "succeeded" /\ Fin(G, b).wf = "succeeded"
+          /\ o \in DOMAIN Fin(G, a).out /\ o \in DOMAIN Fin(G, b).out /\ Fin(G, a).out[o] # Fin(G, b).out[o]
+
 GroupSignatures(G) ==
-  IF G.kind = "order" /\ KF_C07_late_arrival_after_fire(G) THEN {"KF_C07_late_arrival_after_fire"} ELSE {}
+  (IF G.kind = "order" /\ KF_C07_late_arrival_after_fire(G) THEN {"KF_C07_late_arrival_after_fire"} ELSE {}) \cup
+  (IF G.kind = "order" /\ KF_C06_inherited_delta_after_newer(G) THEN {"KF_C06_inherited_delta_after_newer"} ELSE {})
 
 Rel(G) ==
   LET FG(n, ok) == IF ok THEN {} ELSE {n} IN
